@@ -39,7 +39,21 @@ const (
 	pTxs    = 2
 	pTraces = 2
 	token0  = "0x00000000000000000000000000000000000000aa"
+	token1  = "0x00000000000000000000000000000000000000bb"
 )
+
+// address of the log of transaction i; with two tokens only when a harness asks for it
+var twoTokens bool
+
+func logAddr(i uint64) string {
+	if twoTokens && i%2 == 1 {
+		return token1
+	}
+	return token0
+}
+
+// a real node applies the address restriction of eth_getLogs; the stand-in does so on request
+var nodeHonourAddr bool
 
 var transferSig = eth.EncodeHex(eth.Keccak([]byte("Transfer(address,address,uint256)")))
 
@@ -104,7 +118,7 @@ func expect(name string, n, i, k uint64) (string, bool) {
 	case "log_idx":
 		return fmt.Sprint(i + 1), true
 	case "log_addr":
-		return token0, true
+		return logAddr(i), true
 	case "trace_action_call_type":
 		return fmt.Sprintf("call%d", k), true
 	case "trace_action_idx":
@@ -145,7 +159,7 @@ func render(v any) string {
 
 func mkLog(n, i uint64) map[string]any {
 	return map[string]any{
-		"address": token0, "topics": []string{transferSig, word(pat(0xf0, n, i, 20)), word(pat(0xd0, n, i, 20))},
+		"address": logAddr(i), "topics": []string{transferSig, word(pat(0xf0, n, i, 20)), word(pat(0xd0, n, i, 20))},
 		"data": "0x" + fmt.Sprintf("%064x", 5000+10*n+i), "logIndex": hx(i + 1), "blockNumber": hx(n), "blockHash": pat(0xb0, n>>8, n, 32),
 		"transactionHash": pat(0xc0, n, i, 32), "transactionIndex": hx(i), "removed": false,
 	}
@@ -225,8 +239,9 @@ func answer(r rpcReq) map[string]any {
 		res["result"] = mkTraces(parseNum(r.Params[0]))
 	case "eth_getLogs":
 		var f struct {
-			From string `json:"fromBlock"`
-			To   string `json:"toBlock"`
+			From    string   `json:"fromBlock"`
+			To      string   `json:"toBlock"`
+			Address []string `json:"address"`
 		}
 		json.Unmarshal(r.Params[0], &f)
 		from, _ := strconv.ParseUint(strings.TrimPrefix(f.From, "0x"), 16, 64)
@@ -234,6 +249,15 @@ func answer(r rpcReq) map[string]any {
 		logs := []any{}
 		for n := from; n <= to; n++ {
 			for i := uint64(0); i < pTxs; i++ {
+				if nodeHonourAddr && len(f.Address) > 0 {
+					keep := false
+					for _, a := range f.Address {
+						keep = keep || strings.EqualFold(a, logAddr(i))
+					}
+					if !keep {
+						continue
+					}
+				}
 				logs = append(logs, mkLog(n, i))
 			}
 		}
@@ -251,7 +275,21 @@ type corruption struct {
 	apply  func(out []any) []any
 	status int
 	trunc  bool
+	// keepBody: a non-2xx status with the honest, well-formed body; mustFail:
+	// accepting the response is a failure whatever data comes out
+	keepBody bool
+	mustFail bool
+	// what the source "reports" under this corruption, where it differs from
+	// the honest node (a log set naming another block hash)
+	expect func(name string, n, i, k uint64) (string, bool)
 }
+
+// several integrations on one source share one client (and its caches)
+var sharedClient *jrpc2.Client
+
+// set by runSetN: the last run was rejected with an error
+var lastRejected bool
+var expectHook func(name string, n, i, k uint64) (string, bool)
 
 var (
 	nodeMu      sync.Mutex
@@ -289,10 +327,13 @@ func newNode(t *testing.T) *httptest.Server {
 			}
 			nodeMu.Unlock()
 			if match {
-				if c.status != 0 {
+				if c.status != 0 && !c.keepBody {
 					w.WriteHeader(c.status)
 					w.Write([]byte("upstream error"))
 					return
+				}
+				if c.status != 0 {
+					w.WriteHeader(c.status)
 				}
 				if c.apply != nil {
 					func() {
@@ -392,6 +433,7 @@ func runSet(t *testing.T, ts *httptest.Server, mode string, set []string) []stri
 // runSetN: limit blocks starting at pStart; tolerateErr: an error from Get is an acceptable outcome
 func runSetN(t *testing.T, ts *httptest.Server, mode string, set []string, limit uint64, tolerateErr bool) []string {
 	var fails []string
+	lastRejected = false
 	fields := append([]string{}, set...)
 	need := []string{"tx_idx"}
 	if mode == "log" {
@@ -427,7 +469,10 @@ func runSetN(t *testing.T, ts *httptest.Server, mode string, set []string, limit
 	}
 	filter := ig.Filter()
 	ctx := wctx.WithSrcName(wctx.WithChainID(context.Background(), 7), "fake")
-	client := jrpc2.New(ts.URL)
+	client := sharedClient
+	if client == nil {
+		client = jrpc2.New(ts.URL)
+	}
 	var blocks []eth.Block
 	var conn fakeConn
 	func() {
@@ -440,6 +485,7 @@ func runSetN(t *testing.T, ts *httptest.Server, mode string, set []string, limit
 		blocks, err = client.Get(ctx, ts.URL, &filter, pStart, limit)
 		if err != nil {
 			if tolerateErr {
+				lastRejected = true
 				fails = append(fails, "ERR")
 				return
 			}
@@ -493,6 +539,11 @@ func runSetN(t *testing.T, ts *httptest.Server, mode string, set []string, limit
 		seen[[3]uint64{bn, i, k}] = true
 		for _, f := range set {
 			want, _ := expect(f, bn, i, k)
+			if expectHook != nil {
+				if w2, ok := expectHook(f, bn, i, k); ok {
+					want = w2
+				}
+			}
 			ci := col(f)
 			if ci < 0 {
 				fails = append(fails, fmt.Sprintf("%s %v: column for %s missing", mode, set, f))
@@ -551,6 +602,40 @@ func TestVerifPlanBounded(t *testing.T) {
 					fmt.Println("BOUNDED-FAIL " + msg)
 				}
 			}
+		}
+	}
+	// integrations with different data plans on ONE client, same window, in
+	// both orders and twice each (cache hits): what one plan cached must not be
+	// served to a plan that needs more
+	plans := []struct {
+		mode string
+		set  []string
+	}{
+		{"log", []string{"block_num", "block_time", "log_addr"}},             // headers + logs
+		{"tx", []string{"block_num", "block_time", "tx_input", "tx_nonce"}},  // blocks
+		{"tx", []string{"block_num", "tx_status", "tx_gas_used"}},            // receipts
+		{"tx", []string{"block_num", "block_time", "tx_input", "tx_status"}}, // blocks + receipts
+		{"trace", []string{"block_num", "block_time", "trace_action_from"}},  // traces
+		{"log", []string{"block_num", "tx_input", "log_addr", "tx_nonce"}},   // blocks + logs
+	}
+	for i := range plans {
+		for j := range plans {
+			if i == j {
+				continue
+			}
+			sharedClient = jrpc2.New(ts.URL)
+			cases++
+			for round := 0; round < 2; round++ {
+				for _, k := range []int{i, j} {
+					for _, msg := range runSetN(t, ts, plans[k].mode, plans[k].set, 2, false) {
+						nfail++
+						if nfail <= 12 {
+							fmt.Printf("BOUNDED-FAIL shared client, plans %v then %v (round %d): %s\n", plans[i].set, plans[j].set, round, msg)
+						}
+					}
+				}
+			}
+			sharedClient = nil
 		}
 	}
 	fmt.Printf("BOUNDED cases=%d failures=%d exhaustive=true\n", cases, nfail)
